@@ -113,6 +113,9 @@ def worker_main(argv):
             res["sets"].setdefault(k, set()).update(vals)
         if "sample" in obs and len(res["samples"]) < 2:
             res["samples"].append(obs["sample"])
+    hm = sys.modules.get("vlib.harness")
+    if hm is not None and getattr(hm, "GRAMMAR_RULES_SEEN", None):
+        res["sets"].setdefault("grammar_rules_seen", set()).update(hm.GRAMMAR_RULES_SEEN)
     res["keys"] = sorted(res["keys"])
     res["sets"] = {k: sorted(v, key=str) for k, v in res["sets"].items()}
     with open(out, "w") as f:
